@@ -25,13 +25,16 @@ the `notes`/`meta.json` of the change. `detected` = exit 1 + VIOLATION line.
 |---|---|---|---|
 %s
 
-Changes that were first missed and led to stronger checks (52 of 180): round 1 (4 of 36) - C07-b,
+Changes that were first missed and led to stronger checks (60 of 216): round 1 (4 of 36) - C07-b,
 C08-a, C08-b, C11-b; round 2 (14 of 36) - C02-c, C07-d, C08-c, C08-d, C09-d, C10-c, C10-d, C11-c,
 C12-c, C13-d, C14-d, C15-d, C17-c, C18-c; round 3 (11 of 36) - C02-e, C02-f, C04-f, C06-f, C09-f,
 C11-f, C12-e, C13-f, C17-f, C18-e, C18-f; round 4 (13 of 36) - C02-h, C03-h, C05-g, C07-h, C08-h,
 C13-g, C14-g, C15-g, C15-h, C16-g, C17-g, C17-h, C18-h; round 5 (5 of 36) - C07-j, C09-i, C10-i,
-C13-i, C14-j. What was added for each is in section 8. Release-only changes (C01-d, C03-c, C05-c,
-C05-h, C12-i, C13-f) and debug-only ones (C03-h, C05-j, C06-j, C07-j, C10-f, C11-h) are caught
+C13-i, C14-j; round 6 (8 of 36) - C10-l, C11-k, C13-l, C15-k, C15-l (the generated program died: inconclusive,
+not a detection), C17-k, C17-l, C18-l (for C13-l, C15-k, C17-k, C18-l the additions were written from the
+descriptions of the triggers before the first run; that the previous version of the checks misses them was
+confirmed afterwards with a checkout of the previous commit of /verif). What was added for each is in section 8. Release-only changes (C01-d, C03-c, C05-c,
+C05-h, C12-i, C13-f) and debug-only ones (C03-h, C05-j, C06-j, C07-j, C10-f, C11-h, C15-l, C18-l) are caught
 because every behavioural check runs a build with and a build without debug assertions. After the
 last round the complete set was re-run against the final checks (tools/recheck_all.sh): all detected.
 """ % (len(rows), "\n".join(rows))
